@@ -25,7 +25,13 @@ pub struct CelCompiler<'l> {
     bindings: BindContext<'l>,
 
     next_label: u32,
+
+    // set when a unary minus directly precedes the literal 9223372036854775808,
+    // the only int literal whose magnitude needs the sign to be in range
+    negated_int_min: bool,
 }
+
+const INT_MIN_MAGNITUDE: u64 = 1 << 63;
 
 impl<'l> CelCompiler<'l> {
     pub fn with_tokenizer(tokenizer: &'l mut dyn Tokenizer) -> Self {
@@ -33,6 +39,7 @@ impl<'l> CelCompiler<'l> {
             tokenizer,
             bindings: BindContext::for_compile(),
             next_label: 0,
+            negated_int_min: false,
         }
     }
 
@@ -862,8 +869,21 @@ impl<'l> CelCompiler<'l> {
             }) => {
                 self.tokenizer.next()?;
 
+                // `-9223372036854775808`: the minus belongs to the literal
+                let absorbed = matches!(
+                    self.tokenizer.peek()?.as_token(),
+                    Some(Token::IntLit(INT_MIN_MAGNITUDE))
+                );
+                if absorbed {
+                    self.negated_int_min = true;
+                }
+
                 let (neg_list, ast) = self.parse_neg_list()?;
-                let node = compile!([ByteCode::Neg.into()], neg_list, neg_list);
+                let node = if absorbed {
+                    neg_list
+                } else {
+                    compile!([ByteCode::Neg.into()], neg_list, neg_list)
+                };
 
                 let range = ast.range().surrounding(loc);
 
@@ -1234,13 +1254,26 @@ impl<'l> CelCompiler<'l> {
             Some(TokenWithLoc {
                 token: Token::IntLit(val),
                 loc,
-            }) => Ok((
-                CompiledProg::with_const((val as i64).into()),
-                AstNode::new(
-                    Primary::Literal(LiteralsAndKeywords::IntegerLit(val as i64)),
-                    loc,
-                ),
-            )),
+            }) => {
+                let negated = std::mem::take(&mut self.negated_int_min);
+                let val = match i64::try_from(val) {
+                    Ok(v) => v,
+                    Err(_) if negated && val == INT_MIN_MAGNITUDE => i64::MIN,
+                    Err(_) => {
+                        return Err(SyntaxError::from_location(loc.start())
+                            .with_message(format!("Integer literal {} is out of range", val))
+                            .into())
+                    }
+                };
+
+                Ok((
+                    CompiledProg::with_const(val.into()),
+                    AstNode::new(
+                        Primary::Literal(LiteralsAndKeywords::IntegerLit(val)),
+                        loc,
+                    ),
+                ))
+            }
             Some(TokenWithLoc {
                 token: Token::FloatLit(val),
                 loc,
